@@ -99,6 +99,10 @@ def mir_set_scripts(cfg):
 
 
 def obligations():
+    return _own() + (common.shared('C06', ['O6.1-filters', 'O6.1-filters-t', 'O6.5-script-selection'], 'O9', 'get_scripts never reports a script filtered past an unprocessed block: script numbers only move when nothing is pending, and a batch is matched against every script whose range it touches'))
+
+
+def _own():
     return [
         MetaNamesOb(),
         KModelOb('O9.1-set-scripts-all', 'ufs', 'set_scripts_all_q', 'Storage::update_filter_scripts (real text), command `all`: resulting script set = documented replace / upsert / '
